@@ -79,7 +79,7 @@ def register(K):
 
     # ---- Pickled import summaries -----------------------------------------------------------------------------------------
     PROPS_FRAME = ["self._ast", "self._properties", "@list.items:nodeowned", "@ast.lineno", "@ast.col_offset", "@iterator.pos"]
-    ERR = ["ValueError", "IndexError", "KeyError", "NotImplementedError", "TypeError", "AttributeError"]
+    ERR = ["ValueError", "IndexError", "KeyError", "NotImplementedError", "TypeError", "AttributeError", "OverflowError"]
     K.contract("fickle.Pickled.non_standard_imports", params="self: fickle.Pickled", returns="gen", yields="ast.ImportFrom",
                requires=["inv(self)"], modifies=PROPS_FRAME, may_raise=ERR, exact_raises=False, may_raise_if="self._ast is None",
                ensures_raise={"*": ["inv(self)", "self._opcodes == old(self._opcodes)"]},
